@@ -3,6 +3,8 @@
 //@ module verif_enum_time
 //@ harness e_newer kind=enum props=C15 bound=<<reference mtime 1000 s + {0, 0.2 s, 0.999999999 s} x entry mtime = reference + {-1 s, -1 ns, 0, +1 ns, +0.3 s, +0.999999999 s, +1 s} on real files (timestamps read back from the file system)>> label=<<-newer F is true iff the entry's modification time is strictly later than F's, at full timestamp resolution>>
 //@ harness e_newer_xy kind=enum props=C15 bound=<<X, Y in {a, m} x reference (atime, mtime) and entry (atime, mtime) each from {1000.0, 1000.5, 1001.0} s on real files>> label=<<-newerXY F is true iff the entry's X timestamp is strictly later than F's Y timestamp>>
+//@ harness e_newer_c kind=enum props=C15 bound=<<an entry's status-change time (as the file system set it) against a reference whose mtime is that time -1 s, -1 ns, exactly, +1 ns, +1 s; -newercm and -cnewer; and the reverse roles with -newermc>> label=<<the c timestamp takes part in -newerXY / -cnewer at full nanosecond resolution, like a and m>>
+//@ harness e_clock_fixed kind=enum props=C15 bound=<<two readings of the run's clock 20 ms apart>> label=<<'now' is fixed when find starts: every time test of a run sees the same instant>>
 //@ harness e_days kind=enum props=C15,C14 bound=<<timestamp fraction {0, 0.7 s} x age = k days + {-1 s, -1 ns, 0, +1 ns, +0.5 s, +86399 s} for k in 0..=2 (ages >= 0) x operands N, +N, -N for N in 0..=3 x mtime/atime>> label=<<-mtime/-atime N compare N with the number of complete 24-hour periods in now - timestamp, any fraction discarded>>
 //@ harness e_minutes kind=enum props=C15,C14 bound=<<timestamp fraction {0, 0.7 s} x age = k minutes + {-1 s, -1 ns, 0, +1 ns, +0.5 s, +59 s} for k in 0..=2 (ages >= 0) x operands N, +N, -N for N in 0..=3>> label=<<-mmin N compares N with the number of complete minutes in now - timestamp>>
 #[cfg(verif_replay)]
@@ -64,6 +66,47 @@ mod verif_enum_time {
         assert!(got == want, "-newerXY does not compare the entry's X timestamp with the reference's Y timestamp");
     }
     #[test] fn e_newer_xy() { kani::explore(newer_xy_body) }
+
+    fn newer_c_body() {
+        let d = scratch("newerc");
+        let (rf, ef) = (d.join("ref"), d.join("entry"));
+        File::create(&ef).unwrap();
+        let em = fs::metadata(&ef).unwrap();
+        let ct = if em.ctime() >= 0 { UNIX_EPOCH + Duration::new(em.ctime() as u64, em.ctime_nsec() as u32) } else { UNIX_EPOCH };
+        let deltas: [(bool, Duration); 5] = [(true, Duration::new(1, 0)), (true, Duration::new(0, 1)), (false, Duration::ZERO), (false, Duration::new(0, 1)), (false, Duration::new(1, 0))];
+        let (neg, dl) = deltas[pick(5)];
+        let rt = if neg { ct - dl } else { ct + dl };
+        touch(&rf, rt, rt);
+        let rmt = fs::metadata(&rf).unwrap().modified().unwrap();
+        let form = pick(3);
+        let (got, want, what) = match form {
+            0 => (NewerOptionMatcher::new("c", "m", rf.to_str().unwrap()).unwrap().matches_impl(&WalkEntry::new(ef.clone(), 0, Follow::Never)).unwrap(), ct > rmt, "-newercm ref on entry"),
+            1 => { // -cnewer = -newercm through the command line
+                let mut config = crate::find::Config::default();
+                let m = crate::find::matchers::build_top_level_matcher(&["-cnewer", rf.to_str().unwrap(), "-a", "-true"], &mut config).unwrap();
+                let deps = crate::find::tests::FakeDependencies::new();
+                (m.matches(&WalkEntry::new(ef.clone(), 0, Follow::Never), &mut deps.new_matcher_io()), ct > rmt, "-cnewer ref on entry") }
+            _ => { // reverse roles: the reference's ctime against the entry's mtime: here "entry" is the reference
+                let rc = { let m = fs::metadata(&rf).unwrap(); UNIX_EPOCH + Duration::new(m.ctime() as u64, m.ctime_nsec() as u32) };
+                let emt = em.modified().unwrap();
+                (NewerOptionMatcher::new("m", "c", rf.to_str().unwrap()).unwrap().matches_impl(&WalkEntry::new(ef.clone(), 0, Follow::Never)).unwrap(), emt > rc, "-newermc ref on entry") }
+        };
+        let _ = fs::remove_dir_all(&d);
+        if got != want { eprintln!("  input {what}: entry ctime {ct:?}, reference mtime {rmt:?}: got {got}, expected {want}"); }
+        assert!(got == want, "the c timestamp is not compared at full resolution");
+    }
+    #[test] fn e_newer_c() { kani::explore(newer_c_body) }
+
+    fn clock_fixed_body() {
+        use crate::find::Dependencies;
+        let deps = crate::find::StandardDependencies::new();
+        let t1 = deps.now();
+        std::thread::sleep(Duration::from_millis(20));
+        let t2 = deps.now();
+        if t1 != t2 { eprintln!("  input two readings of the run's clock 20 ms apart differ: {t1:?} then {t2:?}"); }
+        assert!(t1 == t2, "the clock of a run moves while it runs");
+    }
+    #[test] fn e_clock_fixed() { kani::explore(clock_fixed_body) }
 
     fn periods(unit: u64, days: bool) {
         let frac = [0u32, 700_000_000][pick(2)];
